@@ -353,7 +353,27 @@ pub fn check(cfg: CheckCfg) -> i32 {
         let mut known_hits = 0;
         let mut new_hits = 0;
         let mut seen_idx = HashSet::new();
-        let distinct: Vec<&&Found> = list.iter().filter(|f| seen_idx.insert(f.idx)).collect();
+        let all_distinct: Vec<&&Found> = list.iter().filter(|f| seen_idx.insert(f.idx)).collect();
+        // cheap pre-classification: a failing run whose *generated* plan already lies inside an open
+        // known-finding pattern (e.g. a configuration class) needs no minimisation
+        let mut distinct: Vec<&&Found> = Vec::new();
+        let mut pre_known = 0usize;
+        for f in all_distinct {
+            let hit = scenarios::generate(&prop, seed, f.idx, cfg.tier).and_then(|plan| findings.iter().find(|k| k.matches(oracle, &f.detail, &plan)));
+            match hit {
+                Some(kf) => {
+                    pre_known += 1;
+                    let line = format!("KNOWN-FINDING: property={} {} [{}]", kf.property, kf.what, kf.id);
+                    if !known_lines.contains(&line) {
+                        known_lines.push(line);
+                    }
+                }
+                None => distinct.push(f),
+            }
+        }
+        if pre_known > 0 {
+            println!("  {oracle}: {pre_known} failing runs lie inside an open known-finding pattern as generated");
+        }
         for f in distinct.iter().take(max_shrinks_per_oracle) {
             let Some(plan) = scenarios::generate(&prop, seed, f.idx, cfg.tier) else { continue };
             let Some(sh) = shrink::shrink(&plan, oracle, 300) else {
